@@ -4,7 +4,10 @@ package dsim
 
 func (r *Run) profileSetup() bool {
 	switch r.plan.Profile {
-	case "crud", "tx", "txenum", "integrity":
+	case "crud", "tx", "txenum", "integrity", "snap":
+		return true
+	case "conc":
+		r.helperPrologue()
 		return true
 	}
 	r.res.HarnessErr = "unknown profile " + r.plan.Profile
@@ -12,7 +15,25 @@ func (r *Run) profileSetup() bool {
 }
 
 func (r *Run) execProfileTx(t *Task, idx int, tx *TxPlan) bool {
-	return false
+	switch tx.Mode {
+	case "view":
+		r.execViewTx(t, idx, tx)
+	case "helper":
+		r.execHelperTx(t, idx, tx)
+	case "snapshot":
+		r.execSnapshot(t, idx, tx)
+	case "restore":
+		r.execRestore(t, idx, tx)
+	case "timeline":
+		r.execTimeline(t)
+	case "idle":
+		for i := 0; i < tx.N; i++ {
+			t.Yield("idle", NeedNone)
+		}
+	default:
+		return false
+	}
+	return true
 }
 
 func (r *Run) profileFinal() {
@@ -21,5 +42,12 @@ func (r *Run) profileFinal() {
 		r.integritySoundness()
 	case "integrity":
 		r.integrityPhase()
+	case "snap":
+		r.snapFinal()
+		if len(r.viols) == 0 {
+			r.integritySoundness()
+		}
+	case "conc":
+		r.integritySoundness()
 	}
 }
